@@ -151,6 +151,7 @@ func checkAgainstReference(rc *core.RunCtx, cfg Cfg, out *Out) (ref *refexec.Res
 		site := errSite(ref.Errors, p.Errors)
 		// one specific shape gets its own name: the only errors missing are the "must not be
 		// null" entries of positions where a TYPED NIL pointer stood for null
+		base := ref.Errors
 		if tn := out.U.TypedNils(); len(tn) > 0 {
 			var rest []refexec.Err
 			dropped := 0
@@ -163,6 +164,44 @@ func checkAgainstReference(rc *core.RunCtx, cfg Cfg, out *Out) (ref *refexec.Res
 			}
 			if dropped > 0 && CompareErrs(collapsed(rest, p.Errors), p.Errors) == "" {
 				site = "typed-nil-at-non-null-position-without-error"
+			}
+			if dropped > 0 {
+				base = rest // (the two shapes can occur in one response)
+			}
+		}
+		// ... and another: everything agrees except the PATHS of the errors that came from one
+		// shared error value (the first position's path is stamped into the value itself)
+		if cfg.Plan.SharedErrors {
+			strip := func(es []refexec.Err) (rest []refexec.Err, shared int) {
+				for _, e := range es {
+					if e.Class == "S:shared" {
+						shared++
+						continue
+					}
+					rest = append(rest, e)
+				}
+				return
+			}
+			wr, ws := strip(base)
+			gr, gs := strip(p.Errors)
+			// (a non-null position whose shared error went to another path also gets gqlgen's
+			// "must not be null" entry, because no error is found at its own path)
+			sharedAt := map[string]bool{}
+			for _, e := range base {
+				if e.Class == "S:shared" {
+					sharedAt[e.Path] = true
+				}
+			}
+			var gr2 []refexec.Err
+			for _, e := range gr {
+				if e.Class == "gqlgen" && sharedAt[e.Path] {
+					continue
+				}
+				gr2 = append(gr2, e)
+			}
+			gr = gr2
+			if ws >= 2 && ws == gs && CompareErrs(collapsed(wr, gr), gr) == "" {
+				site = "shared-error-value-reported-at-one-path"
 			}
 		}
 		rc.Fail("errors-mismatch", site, "variant=%s sched=%s op=%q plan=%v\n%s\ndata %s", cfg.Variant.Name, cfg.Sched, cfg.Op.Query, planDesc(cfg.Plan), d, p.Raw)
@@ -246,6 +285,9 @@ func runC01(rc *core.RunCtx) {
 	}
 	op := pickOp(rc, v, opSource{Corpus: plainCorpus, Gen: true, Mutation: true})
 	plan := pickPlan(rc, false)
+	// one run in five: some failing resolvers return one error VALUE that they share
+	// (var ErrNotFound = gqlerror.Errorf(...)), as user code commonly does
+	plan.SharedErrors = plan.ErrPM > 0 && t.Bool(1, 5, "shared-errors")
 	cfg := Cfg{Variant: v, Op: op, Plan: plan, Sched: Sched(t.Choose(int(NumScheds), "sched")), CancelAt: -1, ParkDir: t.Bool(1, 2, "parkdir")}
 	out := Execute(rc, cfg)
 	ref, ok := checkAgainstReference(rc, cfg, out)
